@@ -9,7 +9,7 @@ props = {json.loads(l)['id']: json.loads(l) for l in open(os.path.join(V, 'prope
 
 # which seeds were caught the first time the check met them ("blind") and which only after the
 # check was strengthened in response to the miss (kept by hand: see DESIGN.md section 12)
-AFTER = {'C12-13', 'C02-11', 'C11-12', 'C13-10', 'C15-8', 'C08-12', 'C18-10', 'C09-10', 'C20-10', 'C16-10', 'C05-8', 'C01-11', 'C02-9', 'C12-10', 'C03-10', 'C11-9', 'C11-10', 'C13-8', 'C17-7', 'C17-9', 'C01-8', 'C03-8', 'C04-8', 'C11-8', 'C12-8', 'C13-6', 'C14-8', 'C17-8', 'C19-8', 'C08-6', 'C20-6', 'C07-6', 'C18-5', 'C18-6', 'C17-6', 'C06-6', 'C02-6', 'C13-4', 'C15-3', 'C12-5', 'C11-6', 'C03-5', 'C09-3', 'C05-3', 'C11-4', 'C05-1', 'C05-2', 'C18-4', 'C17-4', 'C10-4', 'C01-4', 'C20-3', 'C19-4', 'C01-1', 'C07-4', 'C03-4', 'C08-4', 'C03-1', 'C03-2', 'C04-2', 'C10-2', 'C17-2', 'C19-1', 'C13-1', 'C13-2', 'C15-2'}
+AFTER = {'C15-10', 'C16-11', 'C08-14', 'C07-11', 'C12-13', 'C02-11', 'C11-12', 'C13-10', 'C15-8', 'C08-12', 'C18-10', 'C09-10', 'C20-10', 'C16-10', 'C05-8', 'C01-11', 'C02-9', 'C12-10', 'C03-10', 'C11-9', 'C11-10', 'C13-8', 'C17-7', 'C17-9', 'C01-8', 'C03-8', 'C04-8', 'C11-8', 'C12-8', 'C13-6', 'C14-8', 'C17-8', 'C19-8', 'C08-6', 'C20-6', 'C07-6', 'C18-5', 'C18-6', 'C17-6', 'C06-6', 'C02-6', 'C13-4', 'C15-3', 'C12-5', 'C11-6', 'C03-5', 'C09-3', 'C05-3', 'C11-4', 'C05-1', 'C05-2', 'C18-4', 'C17-4', 'C10-4', 'C01-4', 'C20-3', 'C19-4', 'C01-1', 'C07-4', 'C03-4', 'C08-4', 'C03-1', 'C03-2', 'C04-2', 'C10-2', 'C17-2', 'C19-1', 'C13-1', 'C13-2', 'C15-2'}
 
 def seeds_for(pid):
     out = []
@@ -63,8 +63,10 @@ def rnd(m):
         return 6
     if 'round 7' in pb:
         return 7
+    if 'round 8' in pb:
+        return 8
     return (int(m['id'].split('-')[1]) + 1) // 2
-for r in (1, 2, 3, 4, 5, 6, 7):
+for r in (1, 2, 3, 4, 5, 6, 7, 8):
     ms = [m for m in metas if rnd(m) == r]
     ids = [m['id'] for m in ms]
     missed = [m['id'] for m in ms if not m.get('detected_by')]
